@@ -72,6 +72,15 @@ func VerifC18_BeginBlock() {
 	later := e.ctx.WithBlockHeight(h0 + 1).WithTxBytes([]byte("tx-c"))
 	reqC, errC := k.RequestRandom(later, alice, interval, false, nil)
 	reqE, errE := k.RequestRandom(e.ctx.WithTxBytes([]byte("tx-e")), edge, interval, false, nil)
+	// alice also asked one block earlier, with an interval one block longer: two requests of ONE requester due
+	// at the same height (ids differ: they hash the height of the request)
+	var idD []byte
+	twoOfAlice := h0 > 1 && verifChoice("sameRequesterSameDueHeight", 2) == 1
+	if twoOfAlice {
+		reqD, errD := k.RequestRandom(e.ctx.WithBlockHeight(h0-1).WithTxBytes([]byte("tx-d")), alice, interval+1, false, nil)
+		verifAssert(errD == nil, "plain random requests are accepted")
+		idD = types.GenerateRequestID(reqD)
+	}
 	verifAssert(errA == nil && errB == nil && errC == nil && errE == nil, "plain random requests are accepted")
 	idE := types.GenerateRequestID(reqE)
 	idA, idB, idC := types.GenerateRequestID(reqA), types.GenerateRequestID(reqB), types.GenerateRequestID(reqC)
@@ -117,6 +126,10 @@ func VerifC18_BeginBlock() {
 	_, ec := k.GetRandom(ctx, idC)
 	re, ee := k.GetRandom(ctx, idE)
 	verifAssert(ea == nil && eb == nil && ee == nil, "every request due is fulfilled in the block after h+n")
+	if twoOfAlice {
+		_, ed := k.GetRandom(ctx, idD)
+		verifAssert(ed == nil && !st.Has(types.KeyRandomRequestQueue(due, idD)), "two requests of one requester due at the same height are both fulfilled and removed")
+	}
 	verifAssert(re.Value == types.MakePRNG(hdr.AppHash, now, edge, nil, false).GetRand().FloatString(types.RandPrec) && !st.Has(types.KeyRandomRequestQueue(due, idE)),
 		"a request whose id lies at the end of the height's key range is fulfilled and removed like any other")
 	// each number is derived from the block's app hash and time and from the request's OWN consumer
